@@ -280,6 +280,19 @@ fn compare(base: &Outcome, var: &Outcome, dups: &[(String, String)], symmetric_e
     if let Some(t) = twin_mismatch(vm) {
         return Some(t);
     }
+    // a variant from which one side of the substitution twins was removed: the remaining
+    // rules keep their statuses; the exit code and the file status may differ
+    if bm.keys().any(|n| n.starts_with("tw") && !vm.contains_key(n)) {
+        for (name, st) in vm {
+            if let Some(b) = bm.get(name) {
+                if b != st {
+                    return Some(format!("rule status {} -> {}", b, st));
+                }
+            }
+        }
+        rep.count("compared", 1);
+        return None;
+    }
     if base.class != var.class {
         return Some(format!("exit {} -> {}", base.class, var.class));
     }
@@ -913,7 +926,17 @@ fn make_var_heavy(r: &mut Rng, p: &mut Prog, d: &J) {
     // not used here; the two rules of a pair must get the same status in every run.
     if r.chance(2, 3) {
         let k = key(r);
-        let kq = Query { some: false, parts: vec![Part::Key(k.clone())] };
+        let mut kq = Query { some: false, parts: vec![Part::Key(k.clone())] };
+        // sometimes one more step that may not apply to the value (an index on a map, a key on
+        // a list or scalar, ...): whether that is "unresolved" or an error, it must be the same
+        // with and without the variable
+        match r.below(8) {
+            0 => kq.parts.push(Part::Idx(0)),
+            1 => kq.parts.push(Part::Key("zz_in".into())),
+            2 => kq.parts.push(Part::Star),
+            3 => kq.parts.push(Part::AllIdx),
+            _ => {}
+        }
         // a value to compare with: the document's own value for that key (when it is a scalar
         // the tool's literal syntax can express), else a fixed one
         let dv = match d {
@@ -1063,6 +1086,16 @@ impl Check for C15 {
             }
             if q != p {
                 variants.push(Variant { text: q.print(), dups: vec![], what: "unused declarations not issued".into(), disjuncts_permuted: false });
+            }
+        }
+        // the substitution twins, one side at a time: an evaluation error on one side only is a
+        // difference too (a run that errs reports no statuses, so the in-program comparison
+        // cannot see it)
+        if p.rules.iter().any(|x| x.name == "tw1_a") {
+            for (suffix, what) in [("_b", "twins: abstraction side only"), ("_a", "twins: in-place side only")] {
+                let mut q = p.clone();
+                q.rules.retain(|x| !(x.name.starts_with("tw") && x.name.ends_with(suffix)));
+                variants.push(Variant { text: q.print(), dups: vec![], what: what.into(), disjuncts_permuted: false });
             }
         }
         let mut rels = Vec::new();
